@@ -386,6 +386,46 @@ def check_types(ctx, pyx, pxd):
                 expected=(info['ret'], yparam, info['nogil']), found=(pinfo['ret'], ptypes, pinfo['nogil']), stmt=f'{fn} prototype')
 
 
+def _apply_decorator(ctx, fi, deco, value, param):
+    """value = what the undecorated function returns, as an expression of its parameter `param`.  Returns (value', param') of the
+    function the decorated name is bound to."""
+    from .c01 import enum_paths, return_values, subst
+    rep, m = ctx.rep, ctx.model
+    tgt = m.resolve(fi.module, deco) if isinstance(deco, (ast.Name, ast.Attribute)) else None
+    rep.require(tgt is not None and m.has_func(tgt), f'{fi.qualname}: decorator `{u(deco)}` is not a function of the package whose body can be evaluated')
+    d = m.func(tgt)
+    rep.functions.add(d.qualname)
+    body = [x for x in d.node.body if not (isinstance(x, ast.Expr) and isinstance(x.value, ast.Constant))]
+    dps = d.params()
+    shape = len(dps) == 1 and len(body) == 2 and isinstance(body[0], ast.FunctionDef) and isinstance(body[1], ast.Return) \
+        and isinstance(body[1].value, ast.Name) and body[1].value.id == body[0].name and not d.node.decorator_list
+    rep.require(shape, f'{fi.qualname}: decorator {d.qualname} is not of the form `def w(x): return f(...)` / `return w`')
+    w = body[0]
+    for wd in w.decorator_list:       # functools.wraps(f) copies metadata only
+        okw = isinstance(wd, ast.Call) and m.resolve(d.module, wd.func) in ('functools.wraps', 'wraps') and [u(a) for a in wd.args] == [dps[0]] and not wd.keywords
+        rep.require(okw, f'{fi.qualname}: the wrapper inside {d.qualname} is itself decorated with `{u(wd)}`')
+    wa = w.args
+    rep.require(len(wa.args) == 1 and not (wa.posonlyargs or wa.kwonlyargs or wa.vararg or wa.kwarg or wa.defaults), f'{d.qualname}: wrapper does not take exactly one argument')
+    wp = wa.args[0].arg
+
+    class Shim:
+        node = w
+    wpaths, _ = enum_paths(Shim, f'{d.qualname}.<wrapper>')
+    rep.require(not any(p.effects for p in wpaths), f'{d.qualname}: the wrapper executes calls for their effect')
+    wvals = return_values([p for p in wpaths if p.kind != 'raise'], f'{d.qualname}.<wrapper>')
+    rep.require(len(wvals) == 1, f'{d.qualname}: the wrapper has several return values')
+    wv = wvals[0][0]
+    okf = isinstance(wv, ast.Call) and isinstance(wv.func, ast.Name) and wv.func.id == dps[0] and len(wv.args) == 1 and not wv.keywords \
+        and not any(isinstance(n, ast.Name) and n.id == dps[0] for n in ast.walk(wv.args[0]))
+    rep.require(okf, f'{d.qualname}: the wrapper does not return f(<one argument>): {u(wv)[:60]}')
+    # names of the argument expression are the decorator module's globals: they must mean the same where the function lives
+    if d.module is not fi.module:
+        for n in ast.walk(wv.args[0]):
+            rep.require(not (isinstance(n, ast.Name) and n.id != wp and m.resolve(d.module, n) != m.resolve(fi.module, n)),
+                        f'{d.qualname}: `{getattr(n, "id", "")}` means something else in {fi.module.name}')
+    return subst(value, {param: wv.args[0]}), wp
+
+
 def check_bindings(ctx):
     rep, m = ctx.rep, ctx.model
     kmers = m.module('gambit.kmers')
@@ -408,13 +448,19 @@ def check_bindings(ctx):
         vals = return_values([p for p in paths if p.kind != 'raise'], fi.qualname)
         rep.require(len(vals) == 1 and isinstance(vals[0][0], ast.Call), f'{fi.qualname}: not a single-call wrapper')
         call, site_stmt = vals[0][0], vals[0][3]
+        param = fi.params()[0]
+        # decorators: the name is bound to what the decorator returns.  A decorator of the package of the form
+        #     def deco(f): [@wraps(f)] def w(x): return f(<expr of x>); return w
+        # makes the bound function  x -> body_of_f[param := <expr of x>]; anything else is outside the vocabulary.
+        for deco in reversed(fi.node.decorator_list):
+            call, param = _apply_decorator(ctx, fi, deco, call, param)
         target = m.resolve_call(fi, call)
         rep.add('T9', fi.site(site_stmt), f'{w} forwards to the matching Cython function (not crossed)', target == f'{PYX}.{w}',
                 expected=f'{PYX}.{w}', found=target, stmt=call)
         arg = call.args[0] if len(call.args) == 1 and not call.keywords else None
         ok = isinstance(arg, ast.Call) and m.resolve_call(fi, arg) == 'gambit.seq.seq_to_bytes' and len(arg.args) == 1 and not arg.keywords \
-            and u(arg.args[0]) == fi.params()[0]
-        rep.add('T9', fi.site(site_stmt), 'argument goes through seq_to_bytes unchanged', ok, expected=f'seq_to_bytes({fi.params()[0]})',
+            and u(arg.args[0]) == param
+        rep.add('T9', fi.site(site_stmt), 'argument goes through seq_to_bytes unchanged', ok, expected=f'seq_to_bytes({param})',
                 found=u(arg) if arg is not None else u(call), stmt=call)
 
 def check(ctx):
@@ -466,6 +512,8 @@ from ..variants import V  # noqa: E402
 
 _K = 'src/gambit/_cython/kmers.pyx'
 _KIH = "def _kmer_index(kmer, reverse):\n\tkmer_bytes = seq_to_bytes(kmer)\n\tif reverse:\n\t\treturn ckmers.kmer_to_index_rc(kmer_bytes)\n\treturn ckmers.kmer_to_index(kmer_bytes)\n\n\n"
+_KP = 'src/gambit/kmers.py'
+_DECO = "from functools import wraps\n\n\ndef _as_bytes(func):\n\t@wraps(func)\n\tdef wrapper(kmer):\n\t\treturn func(seq_to_bytes(kmer))\n\n\treturn wrapper\n\n\n"
 VARIANTS = [
     V('encoder digits C/G swapped', 'B', _K, "\t\telif nuc == 'C':\n\t\t\tidx += 1\n\t\telif nuc == 'G':\n\t\t\tidx += 2",
       "\t\telif nuc == 'C':\n\t\t\tidx += 2\n\t\telif nuc == 'G':\n\t\t\tidx += 1", 'T1'),
@@ -521,4 +569,16 @@ VARIANTS = [
     V('shared helper strips the k-mer before encoding', 'B', 'src/gambit/kmers.py', "\treturn ckmers.kmer_to_index(seq_to_bytes(kmer))\n", "\treturn _kmer_index(kmer, False)\n", 'T9',
       also=[('src/gambit/kmers.py', "\treturn ckmers.kmer_to_index_rc(seq_to_bytes(kmer))\n", "\treturn _kmer_index(kmer, True)\n"),
             ('src/gambit/kmers.py', "def kmer_to_index(kmer: 'DNASeq') -> int:", _KIH.replace("seq_to_bytes(kmer)\n", "seq_to_bytes(kmer).strip()\n") + "def kmer_to_index(kmer: 'DNASeq') -> int:")]),
+    # T9 through a decorator that does the conversion
+    V('E: conversion to bytes done by a decorator of both wrappers', 'E', _KP, "def kmer_to_index(kmer: 'DNASeq') -> int:", _DECO + "@_as_bytes\ndef kmer_to_index(kmer: 'DNASeq') -> int:",
+      also=[(_KP, "def kmer_to_index_rc(kmer: 'DNASeq') -> int:", "@_as_bytes\ndef kmer_to_index_rc(kmer: 'DNASeq') -> int:"),
+            (_KP, "\treturn ckmers.kmer_to_index(seq_to_bytes(kmer))\n", "\treturn ckmers.kmer_to_index(kmer)\n"), (_KP, "\treturn ckmers.kmer_to_index_rc(seq_to_bytes(kmer))\n", "\treturn ckmers.kmer_to_index_rc(kmer)\n")]),
+    V('decorator passes the argument through without converting it', 'B', _KP, "def kmer_to_index(kmer: 'DNASeq') -> int:", _DECO.replace("func(seq_to_bytes(kmer))", "func(kmer)") + "@_as_bytes\ndef kmer_to_index(kmer: 'DNASeq') -> int:", 'T9',
+      also=[(_KP, "def kmer_to_index_rc(kmer: 'DNASeq') -> int:", "@_as_bytes\ndef kmer_to_index_rc(kmer: 'DNASeq') -> int:"),
+            (_KP, "\treturn ckmers.kmer_to_index(seq_to_bytes(kmer))\n", "\treturn ckmers.kmer_to_index(kmer)\n"), (_KP, "\treturn ckmers.kmer_to_index_rc(seq_to_bytes(kmer))\n", "\treturn ckmers.kmer_to_index_rc(kmer)\n")]),
+    V('decorated wrappers call the crossed kernels', 'B', _KP, "def kmer_to_index(kmer: 'DNASeq') -> int:", _DECO + "@_as_bytes\ndef kmer_to_index(kmer: 'DNASeq') -> int:", 'T9',
+      also=[(_KP, "def kmer_to_index_rc(kmer: 'DNASeq') -> int:", "@_as_bytes\ndef kmer_to_index_rc(kmer: 'DNASeq') -> int:"),
+            (_KP, "\treturn ckmers.kmer_to_index(seq_to_bytes(kmer))\n", "\treturn ckmers.kmer_to_index_rc(kmer)\n"), (_KP, "\treturn ckmers.kmer_to_index_rc(seq_to_bytes(kmer))\n", "\treturn ckmers.kmer_to_index(kmer)\n")]),
+    V('only one of the two wrappers is decorated', 'B', _KP, "def kmer_to_index(kmer: 'DNASeq') -> int:", _DECO + "@_as_bytes\ndef kmer_to_index(kmer: 'DNASeq') -> int:", 'T9',
+      also=[(_KP, "\treturn ckmers.kmer_to_index(seq_to_bytes(kmer))\n", "\treturn ckmers.kmer_to_index(kmer)\n"), (_KP, "\treturn ckmers.kmer_to_index_rc(seq_to_bytes(kmer))\n", "\treturn ckmers.kmer_to_index_rc(kmer)\n")]),
 ]
